@@ -52,6 +52,10 @@ func (x SchemaRef) MarshalYAML() (any, error) {
 	if ref := x.Ref; ref != "" {
 		return &Ref{Ref: ref}, nil
 	}
+	if x.Value == nil {
+		// neither a reference nor a value
+		return nil, nil
+	}
 	return x.Value.MarshalYAML()
 }
 
